@@ -287,6 +287,81 @@ func signalEnumeration(c *Ctx, withSelfSignal bool) {
 		c.R.Outcome(fmt.Sprintf("orphan %s exit=%d", sig, rr.Exit))
 		box.Remove()
 	}
+	// a signal while a DEPENDENCY is being re-run inside its dependant's task (load_outputs=minimal, the dependency's
+	// blobs are gone from the cache and its output from the workspace): the re-run command is terminated like any other
+	for _, sig := range []string{"INT", "TERM"} {
+		s := &hist.Source{Files: map[string]hist.File{"p/in.txt": {Content: "in"}, "p/later.in": {Content: "l1"}}, Toml: "num_workers = 1\n"}
+		s.Targets = append(s.Targets, hist.Target{Pkg: "p", Name: "victim", Inputs: []string{"in.txt"}, Outputs: []string{"victim.out"}, Command: traceStart + `
+if [ -e "$VMARK/armed" ]; then
+  echo "signal sent-by-command" >> "$VTRACE"
+  kill -` + sig + ` $PPID
+  sleep 2
+  touch "$VMARK/survived"
+fi
+printf 'victim' > victim.out
+echo "end $GROG_TARGET" >> "$VTRACE"`})
+		s.Targets = append(s.Targets, hist.Target{Pkg: "p", Name: "later", Deps: []string{":victim"}, Inputs: []string{"later.in"}, Outputs: []string{"later.out"}, Command: traceStart + `
+cat victim.out later.in > later.out
+echo "end $GROG_TARGET" >> "$VTRACE"`})
+		box, err := hist.NewBox(base)
+		if err != nil {
+			c.R.BrokenCheck("%v", err)
+			return
+		}
+		s.Materialize(box.WS(), nil)
+		marks := filepath.Join(box.Dir, "marks")
+		os.MkdirAll(marks, 0o755)
+		env := map[string]string{"VMARK": marks}
+		if r0 := box.Run(grog, hist.RunOpts{Args: []string{"build", "//...", "--load-outputs=minimal"}, Env: env}); r0.Exit != 0 {
+			c.R.BrokenCheck("re-run scenario: preparation build failed: %s", tail(r0.Output, 300))
+			box.Remove()
+			continue
+		}
+		os.RemoveAll(filepath.Join(box.CacheDir(), "cas"))
+		os.Remove(filepath.Join(box.WS(), "p/victim.out"))
+		s2 := s.Clone()
+		s2.Files["p/later.in"] = hist.File{Content: "l2"}
+		s2.Materialize(box.WS(), s)
+		os.WriteFile(filepath.Join(marks, "armed"), nil, 0o644)
+		t0 := time.Now()
+		rr := box.Run(grog, hist.RunOpts{Args: []string{"build", "//...", "--load-outputs=minimal"}, Env: env, Ceiling: 60 * time.Second})
+		name := fmt.Sprintf("SIG%s sent by a dependency that is re-run for its dependant (load_outputs=minimal, blobs lost)", sig)
+		replay := map[string]any{"scenario": name, "exit": rr.Exit, "trace": rr.Trace, "grog_output_tail": tail(rr.Output, 800)}
+		vio := func(sg, format string, a ...any) {
+			c.R.Violate(vc.Violation{Sig: sg, Detail: name + ": " + fmt.Sprintf(format, a...), Replay: replay})
+		}
+		signalled := false
+		for _, l := range rr.Trace {
+			if strings.HasPrefix(l, "signal ") {
+				signalled = true
+			}
+		}
+		switch {
+		case rr.TimedOut:
+			vio("C18:no-exit-after-signal:at:re-run-dependency", "grog did not exit within 60 s")
+		case !signalled:
+			c.R.Cap("scenario %q: the dependency was not re-run (nothing to judge)", name)
+		default:
+			if rr.Exit == 0 {
+				vio("C18:exit-status-zero-after-signal:at:re-run-dependency", "grog exited 0 although it was interrupted while a command was running")
+			}
+			for _, l := range rr.Trace {
+				if l == "start //p:later" {
+					vio("C18:targets-start-after-signal:at:re-run-dependency", "the dependant was started after the interrupt; trace %v", rr.Trace)
+				}
+			}
+			if wait := 3500*time.Millisecond - time.Since(t0); wait > 0 {
+				time.Sleep(wait)
+			}
+			if _, err := os.Stat(filepath.Join(marks, "survived")); err == nil {
+				vio("C18:target-shell-survives-interrupt:re-run-dependency", "the re-run dependency's shell kept running after grog exited (it created its marker file 2 s after the signal)")
+			}
+			c.R.Nontrivial("rerun-signal|" + name)
+		}
+		c.R.AddCounts(1, 1, 1, 1)
+		c.R.Outcome(fmt.Sprintf("rerun %s exit=%d signalled=%v", sig, rr.Exit, signalled))
+		box.Remove()
+	}
 	// a signal while a command is running (the command interrupts grog itself)
 	for _, sig := range []string{"INT", "TERM"} {
 		for _, trap := range []bool{false, true} {
